@@ -6,9 +6,9 @@ from props import time_common as tc
 BASE = dict(MaxLen=3, MaxT=4, Small=set(), MaxLenS=2, MaxTS=3, Ds={0, 1, 2}, AbsLo=1, Terms={"C", "E", "U"}, AuxLen=2,
             SpecKs={"N", "C", "E", "U"}, SpecTs={0, 1, 2}, Hz=7, DispOps=set(), DispLen=1)
 
-QUICK = [(["debounce", "throttle_first", "sample", "throttle_with_mapper"],
-          dict(Small={"throttle_with_mapper"}, SpecTs={0, 1, 2}, DispOps={"debounce", "sample"})),
-         (["sample_obs"], dict(MaxLen=2, MaxT=3, AuxLen=2, Hz=5))]
+QUICK = [(["debounce", "throttle_first", "sample"], dict(DispOps={"debounce"})),
+         (["throttle_with_mapper", "sample_obs"],
+          dict(MaxLen=2, MaxT=3, SpecTs={0, 2}, Terms={"C", "E"}, Small={"sample_obs"}, MaxLenS=2, MaxTS=2, AuxLen=2, Hz=5))]
 
 THOROUGH = [(["debounce", "throttle_first", "sample"], dict(MaxLen=4, MaxT=6, Ds={0, 1, 2, 3}, Hz=10)),
             (["throttle_with_mapper"], dict(MaxLen=3, MaxT=4, SpecTs={0, 1, 2}, Hz=7)),
@@ -17,7 +17,7 @@ THOROUGH = [(["debounce", "throttle_first", "sample"], dict(MaxLen=4, MaxT=6, Ds
              dict(MaxLen=2, MaxT=3, SpecTs={0, 2}, AuxLen=1, Hz=6, DispLen=2,
                   DispOps={"debounce", "throttle_first", "sample", "throttle_with_mapper", "sample_obs"}))]
 
-SIM = (["debounce", "throttle_first", "sample"], dict(MaxLen=5, MaxT=8, Ds={0, 1, 2, 3, 4}, Hz=14))
+SIM = (["debounce", "throttle_first", "sample"], dict(MaxLen=5, MaxT=7, Ds={0, 1, 2, 3, 5}, Hz=13))
 
 
 def run(tier):
